@@ -261,24 +261,32 @@ class Spec(EvalableModel):
             c = leaf
             prev_log = list(c.component_modeling_log)
             c.component_modeling_log.clear()
-            if area:
+            # Costs calculated by an earlier call already include the scale factors
+            # and n_parallel_instances. Recalculating them would scale them again.
+            calculated = orig._calculated_costs
+            if area and "area" not in calculated:
                 c = c.calculate_area(models)
                 orig.area = c.area
                 orig.total_area = c.area * global_fanout
-            if energy:
+                calculated = calculated | {"area"}
+            if energy and "energy" not in calculated:
                 c = c.calculate_action_energy(models)
                 for a in c.actions:
                     orig_action = orig.actions[a.name]
                     orig_action.energy = a.energy
-            if throughput:
+                calculated = calculated | {"energy"}
+            if throughput and "throughput" not in calculated:
                 c = c.calculate_action_throughput(models)
                 for a in c.actions:
                     orig_action = orig.actions[a.name]
                     orig_action.throughput = a.throughput
-            if leak:
+                calculated = calculated | {"throughput"}
+            if leak and "leak" not in calculated:
                 c = c.calculate_leak_power(models)
                 orig.leak_power = c.leak_power
                 orig.total_leak_power = c.leak_power * global_fanout
+                calculated = calculated | {"leak"}
+            orig._calculated_costs = calculated
             orig.component_modeling_log = prev_log + c.component_modeling_log
             orig.component_model = c.component_model
 
